@@ -1,6 +1,7 @@
 package simzcn
 
 import (
+	"math"
 	"strings"
 
 	"0chain.net/chaincore/transaction"
@@ -110,4 +111,26 @@ func (b *Bridge) MintSigned(to *sim.Wallet, ethTxnID string, amount currency.Coi
 	p := NewMintPayload(ethTxnID, amount, nonce, to.ID)
 	p.Signatures = b.Sigs(p, SigValid, authorizers...)
 	return b.Mint(to, p)
+}
+
+// SigSpec names one entry of a mint's signature list: which authorizer of the bridge and what kind of signature.
+type SigSpec struct {
+	Authorizer int
+	Kind       SigKind
+}
+
+// MintWith builds `mint` of (ethTxnID, amount, nonce) for receiver, submitted by from, with one signature entry
+// per spec, in the given order (duplicates allowed).
+func (b *Bridge) MintWith(from *sim.Wallet, receiver, ethTxnID string, amount currency.Coin, nonce int64, specs ...SigSpec) *transaction.Transaction {
+	p := NewMintPayload(ethTxnID, amount, nonce, receiver)
+	for _, sp := range specs {
+		p.Signatures = append(p.Signatures, Sig(b.Auths[sp.Authorizer], sp.Kind, p))
+	}
+	return b.Mint(from, p)
+}
+
+// MintThreshold is the number of signatures the contract demands for n registered authorizers:
+// percent_authorizers * n rounded half to even.
+func MintThreshold(percentAuthorizers float64, n int) int {
+	return int(math.RoundToEven(percentAuthorizers * float64(n)))
 }
